@@ -87,6 +87,46 @@ theorem noRetractions_sound {db : Db} {sch : Sched} (hs : ValidSched sch) (p : P
     (hflag : p.noRetr = true) (h : denote sch db p ctx = some out) : ∀ r ∈ out, r.retr = false :=
   denote_nr hs p ctx out hflag h
 
+/-- the planner's flag is exact: the plan of a FROM clause is flagged `NoRetractions` iff the clause contains no
+    LEFT / RIGHT / FULL OUTER JOIN (stream join and lookup join: left ∧ right; outer join: never). The real
+    planner's flags are compared with this node by node (`jf` op lines). -/
+theorem planner_flag_exact (db : Db) : ∀ (f : From) (c : Nat) (p : Plan), planOf db f c = some p →
+    p.noRetr = !f.mayRetract := by
+  intro f
+  induction f with
+  | tbl i => intro c p h; simp only [planOf, Option.some.injEq] at h; subst h; rfl
+  | sub s w ih =>
+    intro c p h
+    simp only [planOf] at h
+    cases hs : planOf db s c with
+    | none => simp [hs] at h
+    | some ps => simp only [hs, Option.map_some, Option.some.injEq] at h; subst h; simp [Plan.noRetr, From.mayRetract, ih c ps hs]
+  | proj s es ih =>
+    intro c p h
+    simp only [planOf] at h
+    cases hs : planOf db s c with
+    | none => simp [hs] at h
+    | some ps => simp only [hs, Option.map_some, Option.some.injEq] at h; subst h; simp [Plan.noRetr, From.mayRetract, ih c ps hs]
+  | join k l r on ihl ihr =>
+    intro c p h
+    cases k with
+    | inner =>
+      simp only [planOf] at h
+      cases hl : planOf db l c <;> cases hr : planOf db r c <;> simp only [hl, hr] at h <;> try cases h
+      simp only [Plan.noRetr, From.mayRetract, wantsLeft, wantsRight, ihl c _ hl, ihr c _ hr]
+      cases l.mayRetract <;> cases r.mayRetract <;> rfl
+    | lookup =>
+      simp only [planOf] at h
+      cases hl : planOf db l c <;> cases hr : planOf db r (c + l.width db) <;> simp only [hl, hr] at h <;> try cases h
+      simp only [Plan.noRetr, From.mayRetract, wantsLeft, wantsRight, ihl c _ hl, ihr _ _ hr]
+      cases l.mayRetract <;> cases r.mayRetract <;> rfl
+    | left | right | full =>
+      all_goals
+        simp only [planOf] at h
+        cases hl : planOf db l c <;> cases hr : planOf db r c <;> simp only [hl, hr] at h <;> try cases h
+        cases hk : outerKeys c (l.width db) (r.width db) (splitAnd on) <;> simp only [hk, Option.map_none, Option.map_some] at h <;> cases h
+        simp [Plan.noRetr, From.mayRetract, wantsLeft, wantsRight]
+
 /-- the same for every kind of sink: table printers (count tree), csv/json (records as they arrive when the plan
     says `NoRetractions`, a count tree in front otherwise), stream_native (the changelog, consolidated by the reader) -/
 theorem join_sql_mode {db : Db} (hdb : DbOK db) {sch : Sched} (hs : ValidSched sch) (m : SinkMode) (opt : Bool) (q : JQuery)
